@@ -28,6 +28,12 @@ def residual_nnls(matrix: ArrayLike, data: ArrayLike) -> tuple[ArrayLike, ArrayL
     tuple[ArrayLike, ArrayLike]
         The clps and the residual.
     """
-    clp, _ = nnls(matrix, data)
+    # scipy's nnls uses absolute tolerances, so the problem is brought to unit scale first
+    # (the solution is invariant under positive scaling of the data and of the columns).
+    column_scales = np.abs(matrix).max(axis=0)
+    column_scales[column_scales == 0] = 1
+    data_scale = np.abs(data).max() or 1.0
+    clp, _ = nnls(matrix / column_scales, data / data_scale)
+    clp = clp / column_scales * data_scale
     residual = data - np.dot(matrix, clp)
     return clp, residual
